@@ -190,9 +190,10 @@ func FailProgram(r *Rand) FailCase {
 	// host callbacks (globals of the harness): oracle only
 	calls := []string{"hostPanic()", "hostPanic(1, 2)", "hostPanicEx(1)", "hostPanicEx(...arr)", "hostObj()", "hostObj(1, 2, 3)",
 		"hostNil()", "hostErr()", "hostInvoke(f1)", "hostInvoke(func() { return 1 / z })", "hostInvoke(func() { return hostPanic() })",
-		"hostNameCaller.boom(1)", "hostNameCaller.x.y()", "hostPanic(...nf)"}
+		"hostNameCaller.boom(1)", "hostNameCaller.x.y()", "hostPanic(...nf)",
+		"hostPanicVal(0)", "hostPanicVal(1)", "hostPanicVal(2)", "hostPanicVal(3)", "hostPanicVal(4)", "hostPanicVal(5)", "hostInvoke(func() { return hostPanicVal(0) })"}
 	c := calls[r.pick(len(calls))]
 	body, w := wrapFail(r, c, true)
-	return FailCase{Src: "global (hostPanic, hostPanicEx, hostObj, hostNil, hostErr, hostInvoke, hostNameCaller)\n" + head + body,
+	return FailCase{Src: "global (hostPanic, hostPanicEx, hostObj, hostNil, hostErr, hostInvoke, hostNameCaller, hostPanicVal)\n" + head + body,
 		Class: "host:" + strings.SplitN(c, "(", 2)[0], Wrap: w, Host: true}
 }
